@@ -270,6 +270,9 @@ func (fv *FV) exec(st *State, ins ssa.Instruction) {
 			fv.nilOblige(st, l, fv.srcLabel(x.Pos(), "*"+x.X.Name()), x.Pos())
 			t := fv.loadLoc(st, l)
 			c := fv.bind(st, x, t)
+			if gi, ok := fv.eng.guarded[l.fam]; ok && len(l.args) == 1 {
+				fv.guardOf[c] = fv.faRef(gi.structT, gi.mutexIdx, l.args[0])
+			}
 			if l.reg == nil {
 				fv.assume(st, fv.valid(c, x.Type(), st.wm))
 			}
@@ -683,7 +686,7 @@ func (fv *FV) execFieldAddr(st *State, x *ssa.FieldAddr) {
 	}
 	ft := stt.Field(x.Field).Type()
 	switch ft.Underlying().(type) {
-	case *types.Struct, *types.Array:
+	case *types.Struct:
 		d := fv.faRef(structT, x.Field, r)
 		fv.setVal(x, d)
 		fv.ptrs[x] = &Loc{structRef: d, ty: ft}
@@ -743,6 +746,20 @@ func (fv *FV) execIndex(st *State, x *ssa.Index) {
 	fv.bindFresh(st, x)
 }
 
+// guardCheck: accesses to a mutex-guarded map need the lock (ghost state 1 = read, 2 = write).
+func (fv *FV) guardCheck(st *State, m string, write bool, pos token.Pos, what string) {
+	mu, ok := fv.guardOf[m]
+	if !ok {
+		return
+	}
+	cur := fv.read(st, fv.lockFam(), mu)
+	goal := sx(">=", cur, "1")
+	if write {
+		goal = eq(cur, "2")
+	}
+	fv.oblige(st, "guarded", fv.srcLabel(pos, what), goal, pos, nil)
+}
+
 func (fv *FV) execLookup(st *State, x *ssa.Lookup) {
 	if isString(x.X.Type()) {
 		s, i := fv.val(st, x.X), fv.val(st, x.Index)
@@ -757,6 +774,7 @@ func (fv *FV) execLookup(st *State, x *ssa.Lookup) {
 	if isInterface(mm.Key()) && !isInterface(x.Index.Type()) {
 		k = fv.u.box(k, x.Index.Type())
 	}
+	fv.guardCheck(st, m, false, x.Pos(), "map read")
 	has := fv.mapHas(st, mt, m, k)
 	get := fv.mapGet(st, mt, m, k)
 	_, _, card := fv.mapFams(mt)
@@ -784,6 +802,7 @@ func (fv *FV) execMapUpdate(st *State, x *ssa.MapUpdate) {
 		k = fv.u.box(k, x.Key.Type())
 	}
 	fv.oblige(st, "nilmap", fv.srcLabel(x.Pos(), x.Map.Name()+"[...]="), sx("distinct", m, "0"), x.Pos(), nil)
+	fv.guardCheck(st, m, true, x.Pos(), "map write")
 	fv.mapStore(st, mt, m, k, v)
 }
 
@@ -955,6 +974,7 @@ func (fv *FV) execNext(st *State, x *ssa.Next) {
 	mt := rng.X.Type()
 	mm := mt.Underlying().(*types.Map)
 	m := fv.val(st, rng.X)
+	fv.guardCheck(st, m, false, x.Pos(), "map range")
 	ks, vs := u.sortOf(mm.Key()), u.sortOf(mm.Elem())
 	ok := fv.freshConst("nxok", "Bool")
 	k := fv.freshConst("nxk", ks)
